@@ -57,6 +57,7 @@ def strategy(tier):
         'yaml': st.sampled_from([0, 0, 1]),
         'body': st.sampled_from(['Body text here.', '# Heading\n\ntext *em* &amp; more', 'a: not meta\n\n* list', '   indented body', '中文 body']),
         'ops': st.lists(opst, max_size=4),
+        'blank': st.sampled_from(['', '', '', '\t', ' \t', '    \t', '   ', ' ', '\t\t']),      # the "blank" line that ends the block may hold white space
         'dup': st.sampled_from([None, None, None, 0, 1, 2]),      # repeat entry i's key once more at the end of the block (lookups return the first occurrence)
         'family': st.sampled_from(['s', 'd', 'e', 'E']),
     })
@@ -133,7 +134,7 @@ def build(case):
     if term == 'body':
         src += nl
         end = len(src.encode())
-        body = nl + case['body'].replace('\n', nl) + nl
+        body = case.get('blank', '') + nl + case['body'].replace('\n', nl) + nl
         src += body
     elif term == 'eofnl':
         src += nl
